@@ -163,7 +163,7 @@ def _configs(tier, salts):
                                        "memo": False, "noise_amp": 0.01, "nsamples": "const2", "tag_restart": rmode,
                                        "user_params": cfgs.user_params(npt, cfgs.RESTART_MODES[rmode])}
                                 out.append((cfg, {"depth": 0}))
-        if salt == 0 or tier == "thorough":
+        if salt == 0 or (tier == "thorough" and salt == 1):
             for name, cfg in cfgs.broad_cfgs(salt=salt, exclude=("reg", "regfast", "sets"), budgets=tuple(range(4, 64, 3 if tier == "quick" else 1)),
                                              overlays=("avg", "soft")):
                 cfg = dict(cfg, tag_restart="broad")
